@@ -14,7 +14,11 @@ import factgen  # noqa: E402
 REPO_SRC = ["rkcommon/utility/demangle.cpp"]
 NS = 4
 # family, driver output form, payload flavour (does a move leave code 0 behind)
-FAMS = [("trk", "full", "mvz1"), ("str", "plain", "mvz1"), ("vec", "plain", "mvz1"),
+# payload kinds along the trait lattice: the instrumented traces are compared with Spec.observed <kind> of the model's event log
+PK = {"trk": "pk=full",        # user-provided ctors, copy/move, assignment, destructor
+      "tnd": "pk=nodtor",      # trivially destructible, user-provided copy/move (self-pointer, every call logged)
+      "dto": "pk=dtoronly"}    # user-provided default ctor and destructor, trivial copies
+FAMS = [("trk", "full", "mvz1"), ("tnd", "full", "mvz1"), ("dto", "full", "mvz0"), ("str", "plain", "mvz1"), ("vec", "plain", "mvz1"),
         ("over", "plain", "mvz0"), ("int", "plain", "mvz0"), ("ks", "plain", "mvz0"), ("dbl", "plain", "mvz0")]
 # a payload code is 4 * key + shadow: the payload's comparison operators see the key only.  The classic families are fed
 # shadow-free codes (4 * v); ks ({key, shadow} compared on key) and dbl (+0.0 / -0.0) also get codes with shadows.
@@ -162,7 +166,7 @@ def check_O(ops, line, full, mvz):
             got_d = ",".join(w if w == "-" else w[:-1] for w in got_d.split(","))
         if p[0] != o or got_d != d:
             return False, "observable state differs from the value semantics at step %r (required %s|%s)" % (s, o, d), req
-    if full and not lifecycle_ok(events):
+    if full in (True, "full") and not lifecycle_ok(events):
         return False, "payload events are not a legal construct/destroy lifecycle: " + ",".join(events), req
     return True, "", req
 
@@ -309,6 +313,11 @@ def alpha_env(kind):
     ty = 1 if kind == 1 else 0
     return ["es:0:0", "es:0:%d" % a, "es:1:%d" % b, "eu:0", "gv:0:%d:0" % kind, "gv:1:%d:1" % kind, "gv:2:%d:7" % kind, "gv:1:%d:0" % kind,
             "hv:0", "val:0", "val:1", "val:2", "cv:3:%d:8" % ty, "ac:0:3", "am:1:0", "cc:3:0", "eq:0:1", "d:0", "rs:0", "vo:0:40", "ac:0:1"]
+
+
+# move-only payload: the members of Optional that can be instantiated without copying the payload
+ALPHA_MOV = ["cd:0:0", "mk:0:0:4", "mk:1:0:9", "cd:1:0", "em:0:12", "em:1:6", "cm:2:0", "cm:2:1", "cm:3:2", "am:0:1", "am:1:0", "am:0:2",
+             "am:2:0", "rs:0", "rs:1", "d:0", "d:2", "hv:0", "val:0", "val:1", "val:2", "eq:0:1", "lt:0:2", "ne:1:1", "str:0"]
 
 
 def exhaustive_O(n1, n2):
@@ -633,18 +642,19 @@ def run(ctx):
 
     by_mode = {}
     for fam, form, mz in FAMS:
-        by_mode.setdefault((form, mz), []).append(fam)
-    for (form, mz), fams in by_mode.items():
+        by_mode.setdefault((form, mz, PK.get(fam, "pk=full")), []).append(fam)
+    for (form, mz, pk), fams in by_mode.items():
         impls = []
         for fam in fams:
             impls.append(("Optional<%s>" % fam, exe, [fam]))
             impls.append(("Optional<%s>@odd-offset" % fam, exe_odd, [fam]))
-        mism, crashes, mlines = vlib.differential(ctx, o_cases, model, impls, model_args=[form, mz, "fixed"])
+        mism, crashes, mlines = vlib.differential(ctx, o_cases, model, impls, model_args=[form, mz, "fixed", pk])
         ctx.count(len(o_cases) * len(impls))
-        ctx.cov["mismatches_%s_%s" % (form, mz)] = len(mism)
+        ctx.cov["mismatches_%s_%s_%s" % (form, mz, pk[3:])] = len(mism)
         for label, ex, args in impls:
-            judge(ctx, "Optional history", o_cases, ex, args, form == "full", mz == "mvz1", mism, crashes, label)
-        if form == "full":
+            judge(ctx, "Optional history", o_cases, ex, args, ("full" if pk == "pk=full" else "events") if form == "full" else False,
+                  mz == "mvz1", mism, crashes, label)
+        if form == "full" and pk == "pk=full":
             for c in o_rand[:2]:
                 ctx.sample({"case": c, "model_and_impl": mlines[o_cases.index(c)][:400] if mlines else None})
 
@@ -672,6 +682,18 @@ def run(ctx):
         for label, ex, args in impls:
             judge(ctx, "Optional history", extra, ex, args, False, False, mism, crashes, label)
     ctx.sample({"case": ks_extra[0], "note": "payload codes are 4*key+shadow; ks compares keys only"})
+
+    # ---- move-only payload kind (copy constructor / copy assignment deleted), event-exact
+    rm = ctx.rng("mov")
+    mcases = ["O " + " ".join(t) for n in range(1, 4) for t in itertools.product(ALPHA_MOV, repeat=n)] + \
+        ["O " + " ".join(rm.choice(ALPHA_MOV) for _ in range(rm.randint(4, 14))) for _ in range(ctx.pick(1500, 12000))]
+    impls = [("Optional<move-only>", exe, ["mov"]), ("Optional<move-only>@odd-offset", exe_odd, ["mov"])]
+    mism, crashes, mlines = vlib.differential(ctx, mcases, model, impls, model_args=["full", "mvz1", "fixed", "pk=full"])
+    ctx.count(len(mcases) * len(impls))
+    ctx.cov["mismatches_move_only"] = len(mism)
+    for label, ex, args in impls:
+        judge(ctx, "Optional history", mcases, ex, args, "full", True, mism, crashes, label)
+    ctx.cov["case_mix"] = dict(ctx.cov.get("case_mix", {}), move_only_histories=len(mcases))
 
     # ---- getEnvVar.h: Optionals produced from the process environment, then used in the ongoing history
     re_ = ctx.rng("env")
@@ -705,7 +727,7 @@ def run(ctx):
                            "placements": ["64-byte aligned slot", "struct{char; Optional<T>} (odd offset when alignment is 1)"]})
     ctx.rule = ("Optional: random histories (length<=30, 4 wrapper slots, both payload types T and convertible U, sources biased to be empty "
                 "half of the time) + all histories of length<=%d over a %d-op alphabet + all continuations of length<=%d (%d-op alphabet) of "
-                "a 3-wrapper preamble; getEnvVar<int|float|string>: random histories mixing setenv/unsetenv/getEnvVar (the empty string, 30+ character strings, decimal spellings with blanks/sign/trailing junk, -0.0, a name never set) with the Optional operations + all histories of length<=3 over a 21-op alphabet per kind; each on 7 payload families x 2 placements under ASan+UBSan (payload codes are 4*key+shadow; the {key,shadow} struct compared on key and double/float with +0.0/-0.0 additionally get histories with shadowed codes, full stored state printed after every step). Any: random histories (length<=30, 8 "
+                "a 3-wrapper preamble; getEnvVar<int|float|string>: random histories mixing setenv/unsetenv/getEnvVar (the empty string, 30+ character strings, decimal spellings with blanks/sign/trailing junk, -0.0, a name never set) with the Optional operations + all histories of length<=3 over a 21-op alphabet per kind; each on 9 payload families x 2 placements (three instrumented kinds along the trait lattice, event-exact against the model's observed trace: everything user-provided; trivially destructible with user-provided copy/move and a self-pointer; destructor-only with trivial copies; plus a move-only payload on the members that do not copy) under ASan+UBSan (payload codes are 4*key+shadow; the {key,shadow} struct compared on key and double/float with +0.0/-0.0 additionally get histories with shadowed codes, full stored state printed after every step). Any: random histories (length<=30, 8 "
                 "payload types incl. one without operator==, an instrumented one, double with +0.0/-0.0/NaN and a {key,shadow} struct "
                 "compared on key only; the full stored state is printed bit-exactly after every step) + all histories of length<=%d over %d ops. "
                 "non-trivial = the history contains a well-formed wrapper-to-wrapper copy/move/assign and a later observation"
@@ -737,11 +759,11 @@ def replay(ctx):
     out = out.strip("\n")
     ops = doc["case"].split()[1:]
     fam = args[0]
-    form, mz = [(f, m) for (n, f, m) in FAMS if n == fam][0]
+    form, mz = ([(f, m) for (n, f, m) in FAMS if n == fam] + [("full", "mvz1")])[0]
     if rc != 0:
         ok, reason, req = False, "harness died rc=%d" % rc, doc.get("required")
     elif doc["case"][0] == "O":
-        ok, reason, req = check_O(ops, out, form == "full", mz == "mvz1")
+        ok, reason, req = check_O(ops, out, ("full" if PK.get(fam, "pk=full") == "pk=full" else "events") if form == "full" else False, mz == "mvz1")
     else:
         ok, reason, req = check_A(ops, out)
     ctx.log("replay %s: observed %s" % (doc["case"], out))
